@@ -1,9 +1,12 @@
 package wire
 
 import (
+	"context"
 	"errors"
 	"fmt"
+	"io"
 	"log/slog"
+	"net"
 
 	"github.com/jeroenrinzema/psql-wire/codes"
 	psqlerr "github.com/jeroenrinzema/psql-wire/errors"
@@ -65,6 +68,27 @@ func VerifH17() {
 
 	msg := vSymTextL(2, true) // the base error's text may be empty: the M field is still mandatory
 	err := errors.New(string(msg))
+	// BASES=1: the base may also be one of the standard library's sentinels a
+	// handler's own work can end with (its own deadline, its own upstream): the
+	// decorations it put on top reach the client all the same
+	if vParam("BASES", 0) == 1 {
+		switch vChoose(6) {
+		case 1:
+			err = context.Canceled
+		case 2:
+			err = context.DeadlineExceeded
+		case 3:
+			err = io.EOF
+		case 4:
+			err = io.ErrUnexpectedEOF
+		case 5:
+			err = net.ErrClosed
+		}
+		if b := err.Error(); b != string(msg) {
+			msg = []byte(b)
+			vReach("sentinel-base")
+		}
+	}
 	var sev, code, hint, detail, constraint, file, fn, line []byte
 	hasSrc := false
 	for i := 0; i < D; i++ {
@@ -126,11 +150,30 @@ func VerifH17() {
 		}
 	}
 
-	ErrorCode(w, err) //nolint
+	// VIA: 0 the error is handed to ErrorCode directly; 1 it is what a statement
+	// function returns inside a simple query; 2 inside Execute (extended query);
+	// 3 what the ParseFn returns: the ErrorResponse the client gets is the same
+	out := conn.out
+	via := vParam("VIA", 0)
+	if via > 0 {
+		via = 1 + vChoose(3)
+		out = vErrorThroughSession(via, err)
+		vReach("error-returned-by-a-callback")
+	} else {
+		ErrorCode(w, err) //nolint
+		out = conn.out
+	}
 
-	msgs, ok := vFrames(conn.out)
+	all, ok := vFrames(out)
 	vAssert("frames", ok)
+	var msgs []vMsg
+	for _, f := range all {
+		if f.typ == 'E' {
+			msgs = append(msgs, f)
+		}
+	}
 	vAssert("at-least-one-message", len(msgs) >= 1)
+	vAssert("exactly-one-ErrorResponse", len(msgs) == 1)
 	m := msgs[0]
 	vAssert("first-is-ErrorResponse", m.typ == 'E')
 	vAssertK("error-body-wellformed", "KF-C02-1", hasSrc, vBodyOK(m))
@@ -185,6 +228,42 @@ func VerifH17() {
 	if len(constraint) > 0 {
 		vReach("constraint")
 	}
+}
+
+// vErrorThroughSession serves one client cycle whose callback fails with err
+// and returns everything the server wrote.
+func vErrorThroughSession(via int, err error) []byte {
+	stmt := func(ctx context.Context, dw DataWriter, params []Parameter) error { return err }
+	parse := func(ctx context.Context, query string) (PreparedStatements, error) {
+		if via == 3 {
+			return nil, err
+		}
+		return Prepared(NewStatement(stmt)), nil
+	}
+	var input []byte
+	steps := 1
+	if via == 2 {
+		input = vCat(vMsgBytes('P', vCat(vCStr(nil), vCStr([]byte("q")), vU16(0))),
+			vMsgBytes('B', vBindBody(nil, nil, nil)),
+			vMsgBytes('E', vCat(vCStr(nil), vU32(0))),
+			vMsgBytes('S', nil))
+		steps = 4
+	} else {
+		input = vMsgBytes('Q', vCStr([]byte("q")))
+	}
+	srv, serr := NewServer(parse, MessageBufferSize(8192))
+	vAssert("newserver-ok", serr == nil)
+	w := &vWorld{srv: srv}
+	w.conn = vNewConn(input)
+	w.ses, w.rd, w.wr = vSession(srv, w.conn)
+	w.ctx = vCtx(srv)
+	for i := 0; i < steps; i++ {
+		if _, e := w.step(); e != nil {
+			break
+		}
+	}
+	vAssert("callback-error-cycle-ends-with-ReadyForQuery", len(w.conn.out) > 0 && vCount(vTypes(w.conn.out), 'Z') == 1)
+	return w.conn.out
 }
 
 func vAssertKexpect(label string, body []byte, fcode byte, want []byte) {
